@@ -113,3 +113,33 @@ pub fn amount_near(rng: &mut Rng, reference: u128) -> u128 {
         }
     }
 }
+
+pub const NS: u64 = 1_000_000_000;
+
+/// A clock jump that lands around the deadline `deadline_ns` (nanoseconds): one second before, one nanosecond
+/// before, exactly on it, one nanosecond after or one second after. `None` if that instant is not in the future.
+/// Returns (dt seconds, dn nanoseconds).
+pub fn jump_around(rng: &mut Rng, now_ns: u64, deadline_ns: u64) -> Option<(u64, u64)> {
+    let target = match rng.below(7) {
+        0 | 1 => deadline_ns.saturating_sub(NS),
+        2 => deadline_ns.saturating_sub(1),
+        3 | 4 => deadline_ns,
+        5 => deadline_ns.saturating_add(1),
+        _ => deadline_ns.saturating_add(NS),
+    };
+    if target > now_ns {
+        let d = target - now_ns;
+        Some((d / NS, d % NS))
+    } else {
+        None
+    }
+}
+
+/// the sub-second part of an ordinary block step: real block times are not aligned to whole seconds
+pub fn subsecond(rng: &mut Rng) -> u64 {
+    if rng.chance(1, 3) {
+        rng.below(NS)
+    } else {
+        0
+    }
+}
